@@ -171,18 +171,38 @@ def opBranches (ops : List Op) (strict : Bool) : List String :=
   (if ops.any (fun o => match o with | .write [] => true | _ => false) then ["ops.empty_write"] else []) ++
   (if strict then ["strict"] else [])
 
-def handleMw (j : Json) : Json :=
+structure MwIn where
+  cfg : Cfg
+  env : Env
+  ops : List Op
+  rq : Rq
+  entries : List (String × String)
+
+def parseMw (j : Json) : MwIn :=
   let ops := parseOps (getArr j "ops")
   let strict := getBool j "strict"
   let errfn := getStr j "errfn"
   let cfg : Cfg := { strict := strict, errOps := errOpsOf errfn (parseOps (getArr j "errops")) }
   let doc := getD j "doc" Json.null
-  let entries := (getArr doc "responses").map (fun e => (getStr e "key", getStr e "kind"))
+  -- a second operation (GET /w) with its own responses: requests with "path2" go there
+  let entries := (getArr doc (if getBool j "path2" then "responses2" else "responses")).map
+                   (fun e => (getStr e "key", getStr e "kind"))
   let rq := parseRq j true
   let env : Env := envOf (getStr j "route" == "ok") rq.o rq.op (fun s => rq.declared.contains s)
                      (fun s => rq.accepted.contains s)
                      (respOKOf entries (getBool doc "includeStatus") (getBool doc "excludeRespBody"))
-  let o := middleware cfg env ops
+  { cfg := cfg, env := env, ops := ops, rq := rq, entries := entries }
+
+/-- reply for one request, given the outcome the (sequence) model assigns to it -/
+def renderMw (j : Json) (p : MwIn) (o : Outcome) : Json :=
+  let ops := p.ops
+  let strict := p.cfg.strict
+  let errfn := getStr j "errfn"
+  let cfg := p.cfg
+  let doc := getD j "doc" Json.null
+  let entries := p.entries
+  let rq := p.rq
+  let env := p.env
   let s := spec cfg env ops
   let applicable := validCodesB ops
   let excl : List String := []
@@ -216,10 +236,17 @@ def handleMw (j : Json) : Json :=
     ("excl", jstrs excl),
     ("branches", jstrs branches)]
 
-def handleVh (j : Json) : Json :=
-  let ops := parseOps (getArr j "ops")
-  let enc := getStr j "enc"
-  let encOps := encOpsOf enc (parseOps (getArr j "errops"))
+def handleMw (j : Json) : Json :=
+  let p := parseMw j
+  renderMw j p (middleware p.cfg p.env p.ops)
+
+structure VhIn where
+  encOps : ReqFail → List Op
+  fail : ReqFail
+  ops : List Op
+  rq : Rq
+
+def parseVh (j : Json) : VhIn :=
   let rq := parseRq j false
   let fail : ReqFail :=
     match getStr j "route" with
@@ -232,8 +259,15 @@ def handleVh (j : Json) : Json :=
              (match getStr (getD j "rq" Json.null) "bodyFail" with
               | "empty" => .bodyMissing | "ctype" => .bodyType | _ => .bodySchema)
            | .err _ => .invalid
-  let o := vhandler encOps fail ops
-  let s := vspec encOps fail ops
+  { encOps := encOpsOf (getStr j "enc") (parseOps (getArr j "errops")), fail := fail,
+    ops := parseOps (getArr j "ops"), rq := rq }
+
+def renderVh (j : Json) (p : VhIn) (o : VOutcome) : Json :=
+  let ops := p.ops
+  let enc := getStr j "enc"
+  let fail := p.fail
+  let rq := p.rq
+  let s := vspec p.encOps fail ops
   let branches :=
     ["vh." ++ failStr fail, "vh.enc." ++ enc, "vh.entry." ++ getStr j "entry"] ++
     (if fail == .none then opBranches ops false else []) ++
@@ -250,9 +284,65 @@ def handleVh (j : Json) : Json :=
     ("excl", Json.arr #[]),
     ("branches", jstrs branches)]
 
+def handleVh (j : Json) : Json :=
+  let p := parseVh j
+  renderVh j p (vhandler p.encOps p.fail p.ops)
+
+/-! a history: {"seq": [step, …]} — every step overrides `route`, `req`, `ops`, `path2` of the base case; all
+steps go through ONE Validator / ValidationHandler chain. The outcomes come from the sequence machine
+(`serveSeq` / `vserveSeq`), the oracle is the per-request spec. -/
+def zip3 {α β γ : Type} : List α → List β → List γ → List (α × β × γ)
+  | a :: as, b :: bs, c :: cs => (a, b, c) :: zip3 as bs cs
+  | _, _, _ => []
+
+def pairsOf {α : Type} : List α → List (α × α)
+  | a :: b :: rest => (a, b) :: pairsOf (b :: rest)
+  | _ => []
+
+def seqBranches (j : Json) (steps : List Json) (replies : List Json) : List String :=
+  let brs := replies.map (fun r => strs (getArr r "branches"))
+  let has (l : List String) (b : String) := l.contains b
+  let trans := (pairsOf brs).foldl (fun acc (a, b) =>
+      acc ++
+      (if has a "mw.strict_replaced" && has b "mw.strict_flushed" then ["seq.valid_after_rejected"] else []) ++
+      (if has a "mw.strict_flushed" && has b "mw.strict_replaced" then ["seq.rejected_after_valid"] else []) ++
+      (if has a "mw.strict_replaced" && has b "mw.strict_replaced" then ["seq.rejected_after_rejected"] else []) ++
+      (if has a "mw.warn_logged" then ["seq.after_warn_logged"] else []) ++
+      (if has a "mw.badreq" || has a "mw.noroute" then ["seq.after_rejected_request"] else []) ++
+      (if (has b "mw.badreq" || has b "mw.noroute") && has a "mw.strict_replaced" then ["seq.rejected_request_after_rejected_response"] else []) ++
+      (if has a "mw.panic" then ["seq.after_panic"] else []) ++
+      (if has a "ops.nostatus" && !has b "ops.nostatus" then ["seq.after_silent_handler"] else []) ++
+      (if has a "vh.none" && !has b "vh.none" then ["seq.vh.rejected_after_served"] else []) ++
+      (if !has a "vh.none" && has b "vh.none" && has a "vh.enc.vee" then ["seq.vh.served_after_rejected"] else [])) []
+  let paths := (steps.map (fun s => getBool s "path2")).eraseDups
+  ["seq.len" ++ toString steps.length] ++ trans.eraseDups ++
+  (if paths.length > 1 then ["seq.two_operations"] else []) ++
+  (if getBool j "par" then ["seq.concurrent"] else []) ++
+  (brs.foldl (· ++ ·) []).eraseDups
+
+def handleSeq (j : Json) : Json :=
+  let steps := (getArr j "seq").map (fun s => j.mergeObj s)
+  let replies : List Json :=
+    if getStr j "mode" == "vh" then
+      let ps := steps.map parseVh
+      let outs := vserveSeq (parseVh j).encOps (ps.map (fun p => ⟨p.fail, p.ops⟩))
+      (zip3 steps ps outs).map (fun (s, p, o) => renderVh s p o)
+    else
+      let ps := steps.map parseMw
+      let outs := serveSeq (parseMw j).cfg (ps.map (fun p => ⟨p.env, p.ops⟩))
+      (zip3 steps ps outs).map (fun (s, p, o) => renderMw s p o)
+  let field (k : String) := Json.arr (replies.map (fun r => getD r k Json.null)).toArray
+  jobj [
+    ("model", jobj [("steps", field "model")]),
+    ("spec", jobj [("steps", field "spec")]),
+    ("excl", jstrs ((replies.map (fun r => strs (getArr r "excl"))).foldl (· ++ ·) []).eraseDups),
+    ("branches", jstrs (seqBranches j steps replies))]
+
 /-- request: {mode: "mw"|"vh", strict, errfn, errops, logfn, route: ok|nopath|nomethod, req: ok|missing|type,
     doc: {responses:[{key,kind}], includeStatus}, ops:[…], transport, router, enc, entry} -/
 def handle (j : Json) : Json :=
-  if getStr j "mode" == "vh" then handleVh j else handleMw j
+  match j.getObjVal? "seq" with
+  | .ok (.arr _) => handleSeq j
+  | _ => if getStr j "mode" == "vh" then handleVh j else handleMw j
 
 end KinModel.Drv.C14
